@@ -796,6 +796,20 @@ where
 
         assert_eq!(proof.len(), query_to_labels_map.len());
 
+        // As in `check`: every proof must consist of exactly log2(d + 1) rounds. Otherwise the
+        // check polynomial is longer than the key and the final MSM silently drops the excess.
+        let log_d = ark_std::log2(vk.supported_degree() + 1) as usize;
+        for p in proof.iter() {
+            if p.l_vec.len() != p.r_vec.len() || p.l_vec.len() != log_d {
+                return Err(Error::IncorrectInputLength(format!(
+                    "Expected proof vectors to be {:}. Instead, l_vec size is {:} and r_vec size is {:}",
+                    log_d,
+                    p.l_vec.len(),
+                    p.r_vec.len()
+                )));
+            }
+        }
+
         let mut randomizer = G::ScalarField::one();
 
         let mut combined_check_poly = P::zero();
